@@ -34,6 +34,8 @@ def judge(case, raw, cmpr, model):
     """-> list of (signature-class, what) failures of the property or of the tie for one case"""
     bad = []
     for tag, d in (('raw', raw), ('compressed', cmpr)):
+        if 'SKIPPED' in d:
+            continue
         if d.get('build', '').startswith('REJECT'):
             return [('gen:rejected', 'API rejected the generated module: ' + d['build'])] if tag == 'raw' else bad
         if d.get('CRASH') == 'exit3' or (len(d) <= 1 and 'CRASH' in d):
@@ -64,7 +66,7 @@ def judge(case, raw, cmpr, model):
         if 'X0' in d and d.get('X1') != d.get('X0'):
             bad.append(('exec-differs-after-read', '%s: execution differs after the binary round trip: %s vs %s' % (tag, d.get('X0'), d.get('X1'))))
     # tie: model bytes vs raw bytes
-    if 'SKIPPED' in model:
+    if 'SKIPPED' in model or 'SKIPPED' in raw:
         return bad
     if 'W1' in raw and not raw['W1'].startswith('ERR') and 'W1' in model:
         if model['W1'] != raw['W1']:
@@ -81,8 +83,8 @@ def judge(case, raw, cmpr, model):
     return bad
 
 
-def run_cases(chk, exes, cases):
-    return K.run_all(exes, cases)
+def run_cases(chk, exes, cases, which=('raw', 'cmpr', 'model')):
+    return K.run_all(exes, cases, which=which)
 
 
 def run(chk):
@@ -138,12 +140,15 @@ def run(chk):
         if nfail > 6:
             continue
         cls, what = bad[0]
-        if sig is None and not cls.startswith('tie:') and len(case) < 60000:
-            # shrink while the same class of failure reproduces
+        if sig is None and not cls.startswith('tie:') and len(case) < 60000 and nfail <= 2:
+            # shrink (the first two failures only) while the same class of failure reproduces; only the
+            # program that showed it is re-run
+            which = ('raw',) if what.startswith('raw') else ('cmpr',) if what.startswith('compressed') else ('raw', 'model')
+
             def fails(c):
-                x1, x2, xm = run_cases(chk, exes, [c])
+                x1, x2, xm = run_cases(chk, exes, [c], which=which)
                 return any(s == cls for s, _ in judge(c, x1[0], x2[0], xm[0]))
-            small = K.shrink_case(case, fails, max_steps=80)
+            small = K.shrink_case(case, fails, max_steps=60)
         else:
             small = case
         x1, x2, xm = run_cases(chk, exes, [small])
